@@ -270,11 +270,14 @@ func (g *genState) payload() Payload {
 	case k < 80:
 		seq := [][]byte{}
 		n := r.Intn(4)
+		if r.Chance(12) {
+			n = 17 + r.Intn(24) // a long commitment (the application does not tie the length to the threshold)
+		}
 		for i := 0; i < n; i++ {
-			if r.Chance(8) {
+			if r.Chance(8) && n < 17 {
 				seq = append(seq, r.Bytes(96))
 			} else {
-				seq = append(seq, g.u.ValidGamma(r.Intn(4)))
+				seq = append(seq, g.u.ValidGamma(r.Intn(4+n)))
 			}
 		}
 		return Payload{Kind: "pc", A: g.eon(), Seq: seq}
